@@ -122,9 +122,23 @@ def _sym(v: Sym):
         if len(parts) == 1:
             return parts[0]
         return f"({f' {fn} '.join(sorted(parts))})"
+    if fn in ("np.logical_and", "&", "np.logical_or", "|") and len(v.args) == 2 and not v.kw:
+        # conjunction / disjunction of boolean arrays: associative and commutative
+        kind = "and" if fn in ("np.logical_and", "&") else "or"
+        same = ("np.logical_and", "&") if kind == "and" else ("np.logical_or", "|")
+        parts = []
+
+        def flat(t):
+            if isinstance(t, Sym) and t.fn in same and len(t.args) == 2 and not t.kw and (t.recv is None or (isinstance(t.recv, Opaque) and t.recv.tag == "callable")):
+                for x in t.args:
+                    flat(x)
+            else:
+                parts.append(nf(t))
+        flat(v)
+        return f"{kind}(" + ", ".join(sorted(parts)) + ")"
     if fn == "neg" and len(v.args) == 1:
         return f"-({nf(v.args[0])})"
-    if fn in ("-", "/", "//", "**", "@", "%", "<", "<=", "==", "!=", "&", "|") and len(v.args) == 2 and not v.kw:
+    if fn in ("-", "/", "//", "**", "@", "%", "<", "<=", "==", "!=") and len(v.args) == 2 and not v.kw:
         return f"({nf(v.args[0])} {fn} {nf(v.args[1])})"
     return f"{fn}({_args(v)})"
 
